@@ -851,14 +851,11 @@ class DesignGen:
     if wide:        # `from pymtl3 import *` defines Bits1 … Bits256 only
       alias = '\n'.join(f'Bits{n} = mk_bits({n})' for n in wide)
       src = src.replace('from pymtl3 import *\n', 'from pymtl3 import *\n' + alias + '\n', 1)
-    self.sim_src = None
     if self.rng.random() < 0.3:
-      # module-level names equal to the loop variables: a loop variable shadows them (repaired defect F34).
-      # The value 0 is a valid index everywhere, so PyMTL's elaboration (which resolves an index NAME to the
-      # module-level value, not to the loop variable) accepts the design; the reference simulation runs on the
-      # text without them (see c03_util.prepare 'sim_src').
-      self.sim_src = src
-      src = src.replace('from pymtl3 import *\n', 'from pymtl3 import *\ni = 0\nj = 0\n', 1)
+      # module-level names equal to the loop variables, arbitrary values: a loop variable shadows them
+      # (repaired: translator F34 bce9656, elaboration read/write sets 908de91)
+      gi, gj = self.rng.choice([0, 2, 5, 9, 300]), self.rng.choice([0, 1, 2, 7])
+      src = src.replace('from pymtl3 import *\n', f'from pymtl3 import *\ni = {gi}\nj = {gj}\n', 1)
       self.features.add('global-named-like-loopvar')
     return src
 
@@ -866,10 +863,7 @@ def gen_clean(rng, be, opts=None):
   g = DesignGen(rng, be, 'clean', opts)
   top = g.build_comp('Top', 0, True)
   g.finish_comp(top, True)
-  src = g.render()
-  d = {'src': src, 'label': 'clean', 'features': sorted(g.features)}
-  if g.sim_src: d['sim_src'] = g.sim_src
-  return d
+  return {'src': g.render(), 'label': 'clean', 'features': sorted(g.features)}
 
 # ---------------------------------------------------------------------------------------------
 # labelled streams: one known defect shape each (small directed designs, randomised widths / operands)
